@@ -17,6 +17,7 @@ import (
 	"strings"
 	"time"
 
+	"github.com/oauth2-proxy/oauth2-proxy/v7/pkg/apis/options"
 	"github.com/oauth2-proxy/oauth2-proxy/v7/verifx/explore"
 	"github.com/oauth2-proxy/oauth2-proxy/v7/verifx/sched"
 	"github.com/oauth2-proxy/oauth2-proxy/v7/verifx/vatomic"
@@ -49,6 +50,10 @@ type c11Cfg struct {
 	Domains []string `json:"cookie_domains"`
 	Path    string   `json:"cookie_path"`
 	Name    string   `json:"cookie_name"`
+	// Front: "" the browser talks to the proxy directly; otherwise a fronting reverse proxy sits
+	// between them (see c11Fronts): --reverse-proxy is on, the proxy is addressed under an internal
+	// Host and learns the public host from X-Forwarded-Host.
+	Front string `json:"front,omitempty"`
 }
 
 func (k c11Cfg) prefix() string {
@@ -77,7 +82,11 @@ func (k c11Cfg) String() string {
 	if k.Redis {
 		st = "redis"
 	}
-	return fmt.Sprintf("store=%s domains=%v path=%s name=%s", st, k.Domains, k.Path, c11Short(k.Name))
+	s := fmt.Sprintf("store=%s domains=%v path=%s name=%s", st, k.Domains, k.Path, c11Short(k.Name))
+	if k.Front != "" {
+		s += fmt.Sprintf(" front=%s(Host: %s, X-Forwarded-Host: %s)", k.Front, c11Fronts[k.Front], c11Host)
+	}
+	return s
 }
 
 func (k c11Cfg) flags(upURL string) []string {
@@ -85,6 +94,9 @@ func (k c11Cfg) flags(upURL string) []string {
 		"--cookie-name="+k.Name, "--cookie-path="+k.Path, "--proxy-prefix="+k.prefix())
 	for _, d := range k.Domains {
 		f = append(f, "--cookie-domain="+d)
+	}
+	if k.Front != "" {
+		f = append(f, "--reverse-proxy=true")
 	}
 	return f
 }
@@ -98,7 +110,7 @@ func c11Short(s string) string {
 
 func c11LongName(n int) string { return "sess" + strings.Repeat("n", n-4) }
 
-func c11Configs() []c11Cfg {
+func c11Configs(quick bool) []c11Cfg {
 	var out []c11Cfg
 	names := []string{"_oauth2_proxy", c11LongName(254), "app.sess+ion", c11LongName(255), c11LongName(256)}
 	doms := [][]string{nil, {"example.com"}, {"example.com", "app.example.com"}}
@@ -111,7 +123,8 @@ func c11Configs() []c11Cfg {
 			}
 		}
 	}
-	return out
+	// behind a fronting reverse proxy (appended: the numbering of the configurations above is kept)
+	return append(out, c11FrontConfigs(quick)...)
 }
 
 // operations after the login; every one ends with a request for the page
@@ -130,7 +143,9 @@ type c11Out struct {
 	// the session); "stale-grow"/"stale-shrink" additionally switch the provider's padding before.
 	Stale string `json:"stale,omitempty"`
 	// Fault (Redis only): "del-err" the DEL fails without being performed, "del-lost" it is
-	// performed but its reply is lost.
+	// performed but its reply is lost; "outage" every store call of the request fails;
+	// "cmd:<i>[,<j>]" the i-th (and j-th) single Redis COMMAND the server receives during the
+	// sign-out request is answered with an error reply instead of being executed (c11_env_test.go).
 	Fault string `json:"fault,omitempty"`
 }
 
@@ -267,6 +282,10 @@ func c11FreshRedis() *world.Redis {
 		}
 	} else {
 		c11Redis.Reset()
+		// a fresh server has no cached Lua scripts either (the lock's first EVALSHA is answered
+		// NOSCRIPT and repeated as EVAL): without this the command sequence of a request would
+		// depend on what earlier worlds of the same process did
+		c11FlushScripts(c11Redis)
 	}
 	return c11Redis
 }
@@ -292,6 +311,14 @@ func c11NewWorld(seed int64, cs *c11Case) *c11World {
 	pc := &ProxyCfg{Flags: cs.Cfg.flags("static://200")}
 	if cs.Cfg.Redis {
 		pc.Redis = c11FreshRedis()
+		// the store client's real-time limits (3 s to read a reply, 5 s to dial) are virtual-time
+		// noise on a loaded machine: a stalled process makes a fault-free store call fail. Raised
+		// through the connection URL, the way an operator would.
+		pc.Mutate = func(o *options.Options) {
+			if !strings.Contains(o.Session.Redis.ConnectionURL, "?") {
+				o.Session.Redis.ConnectionURL += "?read_timeout=60s&write_timeout=60s&dial_timeout=60s&pool_timeout=60s"
+			}
+		}
 	}
 	px, err := buildProxy(pc)
 	if err != nil {
@@ -302,6 +329,9 @@ func c11NewWorld(seed int64, cs *c11Case) *c11World {
 		return w
 	}
 	px.H = c11Freeze(px.H)
+	if cs.Cfg.Front != "" {
+		px.H = c11FrontProxy(cs.Cfg.Front, px.H)
+	}
 	w.px = px
 	w.b = newBrowser(px, "http", c11Host)
 	return w
@@ -591,6 +621,9 @@ type c11Result struct {
 	KeysAfter      int
 	AuthedOps      []bool
 	GrantsOps      int
+	Cmds           []string // Redis: the commands the server received during the sign-out request (handshake excluded)
+	CmdFailed      []string // "cmd:" faults: the commands that were answered with the error reply
+	CmdElsewhere   bool     // "cmd:" fault answered with a 3xx to another place than the sign-out target
 }
 
 func (r *c11Result) has(key string) bool {
@@ -689,7 +722,7 @@ func c11SignOut(w *c11World, r *c11Result) {
 	r.Presented = len(presented)
 	if w.px.Redis != nil {
 		r.KeysBefore = len(w.px.Redis.SessionKeys())
-		if o.Fault != "" {
+		if o.Fault != "" && !strings.HasPrefix(o.Fault, "cmd:") {
 			w.px.Redis.Intercept = func(c *world.StoreCall) *world.StoreFault {
 				if o.Fault == "outage" {
 					r.FaultDelivered = true
@@ -706,12 +739,21 @@ func c11SignOut(w *c11World, r *c11Result) {
 			}
 		}
 	}
+	cmdIdx, cmdFault := c11CmdFaultPositions(o.Fault)
+	if w.px.Redis != nil {
+		c11WatchCommands(w.px.Redis, cmdIdx, r)
+	}
 	grants := w.idp.Grants
 	resp := w.b.Do(req)
 	if w.px.Redis != nil {
 		w.px.Redis.Intercept = nil
+		w.px.Redis.WatchCommands(nil)
 		r.KeysAfter = len(w.px.Redis.SessionKeys())
+		if cmdFault {
+			r.FaultDelivered = len(r.CmdFailed) == len(cmdIdx)
+		}
 	}
+	success := resp.Status >= 300 && resp.Status < 400
 	r.GrantInSignOut = w.idp.Grants > grants
 	switch {
 	case resp.Status >= 300 && resp.Status < 400:
@@ -737,7 +779,10 @@ func c11SignOut(w *c11World, r *c11Result) {
 		}
 	}
 
-	faultNoRemoval := (o.Fault == "del-err" || o.Fault == "outage") && r.FaultDelivered
+	// a removal that is known or allowed to have failed: the injected store-call faults, and a
+	// command-level fault whenever the answer is not the success redirect (the statement demands the
+	// removal only of a sign-out that reports success)
+	faultNoRemoval := ((o.Fault == "del-err" || o.Fault == "outage") && r.FaultDelivered) || (cmdFault && !success)
 
 	// (1) every presented session cookie is gone
 	inJar := func(ck *world.Cookie) *world.Cookie {
@@ -811,7 +856,7 @@ func c11SignOut(w *c11World, r *c11Result) {
 	}
 
 	// (4) failed store removal => error answer
-	if faultNoRemoval {
+	if faultNoRemoval && !cmdFault {
 		if r.Class != "error" {
 			add("C11/failed-store-removal-not-answered-with-error", "the DEL of the stored session failed, yet sign-out answered %d Location=%q (keys left in the store: %d)", resp.Status, resp.Location(), r.KeysAfter)
 		}
@@ -821,7 +866,16 @@ func c11SignOut(w *c11World, r *c11Result) {
 	}
 
 	// (2) the stored session is gone; replays of everything the browser ever held
-	if w.px.Redis != nil && !faultNoRemoval && r.KeysAfter > 0 {
+	if cmdFault && success && r.Class == "redirect-elsewhere" {
+		// a 3xx to another place than the sign-out's own target: not necessarily "the success
+		// redirect" of the statement — measured, never judged by the command-fault clause
+		faultNoRemoval, r.CmdElsewhere = true, true
+	}
+	judgeCmd := cmdFault && !faultNoRemoval // a command failed and the answer is the sign-out's success redirect
+	if judgeCmd && r.KeysAfter > 0 {
+		add(c11CmdFaultKey, "the server answered %v with an error reply; sign-out answered the success redirect %d Location=%q although the store still holds %d session key(s) (before: %d); commands of the request: %v", r.CmdFailed, resp.Status, resp.Location(), r.KeysAfter, r.KeysBefore, r.Cmds)
+	}
+	if w.px.Redis != nil && !faultNoRemoval && !cmdFault && r.KeysAfter > 0 {
 		add("C11/stored-session-not-removed", "after sign-out (%d) the store still holds %d session key(s) (before: %d)", resp.Status, r.KeysAfter, r.KeysBefore)
 	}
 	for i, h := range w.snaps {
@@ -829,7 +883,9 @@ func c11SignOut(w *c11World, r *c11Result) {
 		r.Replays++
 		if c11Served(rr) {
 			r.ReplayAuthed++
-			if w.px.Redis != nil && !faultNoRemoval {
+			if judgeCmd {
+				add(c11CmdFaultKey, "the server answered %v with an error reply; sign-out answered the success redirect %d, yet cookie set #%d the browser held before (%s) is served again: status %d; commands of the request: %v", r.CmdFailed, resp.Status, i, c11Names(k, h), rr.Status, r.Cmds)
+			} else if w.px.Redis != nil && !faultNoRemoval {
 				add("C11/replayed-cookie-authenticated-after-sign-out", "cookie set #%d the browser held before the sign-out (%s) is served again after it: status %d", i, c11Names(k, h), rr.Status)
 			}
 		}
@@ -850,13 +906,16 @@ func c11SignOut(w *c11World, r *c11Result) {
 	r.Post = fmt.Sprintf("class=%s;left=%v;fresh=%d;keys=%d;replay=%d/%d;post=%v;jar=%s", r.Class, left, r.FreshSurvivors, r.KeysAfter, r.ReplayAuthed, r.Replays, r.PostAuthed, w.layout())
 	r.Obs = fmt.Sprintf("sign-out %d Location=%q; presented %d session cookie(s) [%s], %d deleted, left %v; cookies set by the sign-out response and kept: %d; store keys %d -> %d; replays served %d/%d; next browser request served=%v; refresh inside sign-out=%v",
 		resp.Status, resp.Location(), r.Presented, r.Layout, r.Deleted, left, r.FreshSurvivors, r.KeysBefore, r.KeysAfter, r.ReplayAuthed, r.Replays, r.PostAuthed, r.GrantInSignOut)
+	if cmdFault || os.Getenv("C11_DEBUG") != "" {
+		r.Obs += fmt.Sprintf("; Redis commands of the sign-out request %v, answered with an error reply: %v", r.Cmds, r.CmdFailed)
+	}
 }
 
 // ---------------------------------------------------------------------------------------------
 // the search
 
 func c11Run(c *Ctx) {
-	cfgs := c11Configs()
+	cfgs := c11Configs(c.Quick())
 	maxDepth := 2
 	users := []string{"alice", "carol"}
 	rotates := []bool{false}
@@ -866,29 +925,54 @@ func c11Run(c *Ctx) {
 	}
 	c.Info["alphabet"] = map[string]any{
 		"configurations": len(cfgs), "stores": 2, "cookie_domain_sets": 3, "cookie_paths": 2, "cookie_names": 5,
+		"configurations_behind_reverse_proxy": len(c11FrontConfigs(c.Quick())), "reverse_proxy_fronts": c11Fronts, "reverse_proxy_cookie_domain_sets": c11FrontDomains,
+		"command_faults": "every single Redis command the server receives during the sign-out request answered with an error reply (thorough: every pair), for the sign-out variants " + c11CmdFaultVariants(c.Quick()),
 		"login_users": users, "refresh_token_rotation": rotates, "operations": c11Ops, "max_operations_after_login": maxDepth,
 		"sign_out_variants_cookie": len(c11Outs(c11Cfg{}, c.Quick())), "sign_out_variants_redis": len(c11Outs(c11Cfg{Redis: true}, c.Quick())),
 	}
 	c11HandMade(c)
 	c11Concurrent(c)
-	unit := 0
+	// the units of work (one search each) are dealt to the shards in order of decreasing estimated
+	// size, so that the searches with the Redis store (more sign-out variants, command faults) do
+	// not all fall to the same shards; every unit belongs to exactly one shard
+	type unitT struct {
+		ci         int
+		k          c11Cfg
+		user       string
+		rot        bool
+		depth      int
+		cmdFaults  bool
+		est, order int
+	}
+	var units []unitT
 	for ci, k := range cfgs {
 		for _, user := range users {
 			for _, rot := range rotates {
-				unit++
-				if !c.Mine(unit) {
-					continue
+				depth, cmdFaults := c11UnitPlan(k, c.Quick(), maxDepth)
+				est := len(c11Outs(k, c.Quick()))
+				if cmdFaults {
+					est += 22
 				}
-				if c.Expired() {
-					return
+				for d := 0; d < depth; d++ {
+					est *= 3
 				}
-				c11Search(c, ci, k, user, rot, maxDepth)
+				units = append(units, unitT{ci, k, user, rot, depth, cmdFaults, est, len(units)})
 			}
 		}
 	}
+	sort.SliceStable(units, func(a, b int) bool { return units[a].est > units[b].est })
+	for i, u := range units {
+		if !c.Mine(i) {
+			continue
+		}
+		if c.Expired() {
+			return
+		}
+		c11Search(c, u.ci, u.k, u.user, u.rot, u.depth, u.cmdFaults)
+	}
 }
 
-func c11Search(c *Ctx, ci int, k c11Cfg, user string, rot bool, maxDepth int) {
+func c11Search(c *Ctx, ci int, k c11Cfg, user string, rot bool, maxDepth int, cmdFaults bool) {
 	outs := c11Outs(k, c.Quick())
 	seen := map[string]bool{}
 	post := map[string]bool{}
@@ -955,8 +1039,8 @@ func c11Search(c *Ctx, ci int, k c11Cfg, user string, rot bool, maxDepth int) {
 			}
 			c.SetMax("max_depth", int64(depth))
 
-			for _, o := range outs {
-				cs := mk(ops, o)
+			// judge executes one sign-out variant in this state and judges it (nil: not judged)
+			judge := func(cs *c11Case) *c11Result {
 				r := c11Exec(c.Seed, cs)
 				c.Inc("traces_validated_against_impl")
 				for try := 0; try < 2 && r.Err == "" && r.Pre != canon; try++ {
@@ -971,11 +1055,11 @@ func c11Search(c *Ctx, ci int, k c11Cfg, user string, rot bool, maxDepth int) {
 				c.Inc("evaluations")
 				if r.Err != "" {
 					c.Error("fixture failed: %s | %s", r.Err, cs)
-					continue
+					return nil
 				}
 				if r.Pre != canon {
 					c.Unstable("replay diverged before the sign-out three times:\n%s\n%s | %s", canon, r.Pre, cs)
-					continue
+					return nil
 				}
 				c11Count(c, ci, cs, r, canon)
 				if !post[r.Post] {
@@ -999,6 +1083,15 @@ func c11Search(c *Ctx, ci int, k c11Cfg, user string, rot bool, maxDepth int) {
 						}
 						return "", false
 					})
+				}
+				return r
+			}
+			for _, o := range outs {
+				r := judge(mk(ops, o))
+				if r != nil && k.Redis && cmdFaults && c11CmdFaultVariant(o, c.Quick()) {
+					// every single command of this sign-out request (thorough: every pair) answered
+					// with an error reply by the server
+					c11CmdFaults(c, o, r.Cmds, nil, c11CmdFaultDepth(o, c.Quick(), len(ops)), func(o2 c11Out) *c11Result { return judge(mk(ops, o2)) })
 				}
 			}
 			if depth < maxDepth {
@@ -1042,7 +1135,14 @@ func c11Count(c *Ctx, ci int, cs *c11Case, r *c11Result, canon string) {
 	if r.GrantsOps > 0 {
 		c.Inc("histories_with_refresh")
 	}
-	if cs.Out.Fault != "" {
+	if cs.Cfg.Front != "" {
+		c.Inc("signout_behind_reverse_proxy_" + store)
+		c.Inc(fmt.Sprintf("signout_behind_reverse_proxy_%d_cookie_domains", len(cs.Cfg.Domains)))
+		c.Add("cookies_deleted_behind_reverse_proxy", int64(r.Deleted))
+	}
+	if strings.HasPrefix(cs.Out.Fault, "cmd:") {
+		c11CountCmdFault(c, cs, r)
+	} else if cs.Out.Fault != "" {
 		if r.FaultDelivered {
 			c.Inc("fault_delivered_" + cs.Out.Fault)
 			c.Inc("fault_" + cs.Out.Fault + "_answer_" + r.Class)
@@ -1080,7 +1180,7 @@ func init() {
 	register(&checkDef{
 		id:    "C11",
 		level: "model_checking",
-		rule:  "breadth-first search over histories login(alice: one cookie | carol: split cookie) -> up to k operations {request, request with refresh, refresh that grows the session by 3000 incompressible bytes, refresh that shrinks it again} -> sign-out {GET,POST} x {no rd, rd} x {at once, 2 min later (refresh inside the sign-out request), later with growing, later with shrinking session} (quick: the delayed sign-outs only as GET without rd and POST with rd) (+ Redis: DEL failing / DEL reply lost) -> replay of every cookie set the browser ever held -> the browser's next request; for store {cookie, Redis} x cookie-domain {none, one, two nested} x cookie-path {/, /app} x cookie-name {default, 254, 255, 256 characters, app.sess+ion}; plus (a) sign-out presented with hand-made Cookie headers over every subset of {name, name_0..name_3} and two-digit parts (2 name lengths x 2 proxy prefixes x 2 methods) and (b) all interleavings (visited-state pruning; 3 threads: preemption bound 2 in quick, unbounded in thorough) of the sign-out with 1-2 requests of the same browser that are refreshing the shared session, at every store / lock / provider / retry-sleep step of the real proxy with the Redis store, for provider behaviours {static, rotating refresh token, refresh fails, no refresh token} (oracle: success redirect => no stored session afterwards and no replayed cookie authenticates); each history replayed on a fresh world through the real handlers, states de-duplicated on a canonical form (jar layout, decrypted sessions, store keys and TTLs, provider state, clock offset, cookie sets ever held); states = distinct pre-sign-out states + distinct post-sign-out outcomes per search; non-trivial = distinct (configuration, state, sign-out variant) in which a live session presented at least one session cookie",
+		rule:  "breadth-first search over histories login(alice: one cookie | carol: split cookie) -> up to k operations {request, request with refresh, refresh that grows the session by 3000 incompressible bytes, refresh that shrinks it again} -> sign-out {GET,POST} x {no rd, rd} x {at once, 2 min later (refresh inside the sign-out request), later with growing, later with shrinking session} (quick: the delayed sign-outs only as GET without rd and POST with rd) (+ Redis: DEL failing / DEL reply lost) -> replay of every cookie set the browser ever held -> the browser's next request; for store {cookie, Redis} x cookie-domain {none, one, two nested} x cookie-path {/, /app} x cookie-name {default, 254, 255, 256 characters, app.sess+ion}; plus (a) sign-out presented with hand-made Cookie headers over every subset of {name, name_0..name_3} and two-digit parts (2 name lengths x 2 proxy prefixes x 2 methods) and (b) all interleavings (visited-state pruning; 3 threads: preemption bound 2 in quick, unbounded in thorough) of the sign-out with 1-2 requests of the same browser that are refreshing the shared session, at every store / lock / provider / retry-sleep step of the real proxy with the Redis store, for provider behaviours {static, rotating refresh token, refresh fails, no refresh token} (oracle: success redirect => no stored session afterwards and no replayed cookie authenticates), (c) the same search behind a fronting reverse proxy (--reverse-proxy, internal Host {foreign to all cookie domains, sibling under the widest one} != X-Forwarded-Host = the public host the jar knows) x cookie-domain sets {none, one, two nested in both orders, three with a foreign fall-back} x cookie-path x store (quick: default cookie name, histories of up to 1 operation): the jar must be empty of session cookies after the sign-out, and (d) Redis, default cookie name: every single command the server receives during the sign-out request (found by executing it; quick: sign-out at once / 2 min later as GET without rd and POST with rd; thorough: every fault-free variant, and every pair of commands after histories of up to 1 operation) answered with an error reply instead of being executed, beneath the repository's client and lock code (oracle: the sign-out's success redirect => no session entry in the store and no cookie set ever held is served again); each history replayed on a fresh world through the real handlers, states de-duplicated on a canonical form (jar layout, decrypted sessions, store keys and TTLs, provider state, clock offset, cookie sets ever held); states = distinct pre-sign-out states + distinct post-sign-out outcomes per search; non-trivial = distinct (configuration, state, sign-out variant) in which a live session presented at least one session cookie",
 		assumptions: []string{
 			"a session cookie is a cookie named <cookie-name>, <cookie-name>_<n>, or <shortened cookie-name>_<n> (how the store names split parts when name_<n> would exceed 256 characters)",
 			"the jar deletes only on an exact (name, domain, host-only, path) match (RFC 6265 §5.3); a deletion with other attributes leaves the cookie",
@@ -1088,6 +1188,9 @@ func init() {
 			"with the cookie store a replayed pre-sign-out cookie is still accepted (stateless store): measured, not a violation — the statement claims replay protection for server-side stores only",
 			"session cookies that the sign-out response itself sets under names the browser did not present (a refresh inside the sign-out request that changes the cookie layout) are a violation only if the browser's next request is then served (the session demonstrably survived the sign-out); if they merely linger unusable they are counted as ambiguous — the statement's text speaks of the presented cookies",
 			"cookie-refresh 1m, cookie-expire default (168h), single browser, single host app.example.com, static refresh token (thorough: also rotating)",
+			"behind the reverse proxy the browser's host app.example.com reaches the proxy in X-Forwarded-Host (with X-Forwarded-Proto and X-Forwarded-For) and the Host header names the internal address; replays go through the same front",
+			"command faults: an error reply (-ERR) to one command, no effect on the data; commands a Lua script of the lock issues inside the server are commands too; connection set-up commands (HELLO, CLIENT, AUTH, SELECT) are not failed; a fresh world has an empty script cache; under a command fault a 3xx to another place than the sign-out's own target is not taken for the success redirect (counted as ambiguous if a session is left)",
+			"the store client's real-time limits are raised to 60 s through the connection URL (a stalled process must not turn into a store fault nobody injected)",
 		},
 		shards: func(tier string) int { return 16 },
 		run:    c11Run,
@@ -1098,6 +1201,10 @@ func init() {
 				"layout_single", "layout_parts-2", "layout_parts-3", "layout_parts-2-truncated-names", "refresh_inside_sign_out", "histories_with_refresh", "history_requests_served",
 				"transitions_to_known_state", "handmade_signouts", "conc_complete_executions", "conc_lock_contended",
 				"conc_session_saved_by_a_request_in_flight", "conc_signout_answered_success"}
+			need = append(need, c11EnvNeed...)
+			if !c.Quick() {
+				need = append(need, "cmd_fault_pairs")
+			}
 			sort.Strings(need)
 			for _, k := range need {
 				if c.Counters[k] == 0 {
